@@ -191,12 +191,14 @@ def _shard_main(args) -> dict:
 
     try:
         enum = getattr(mod, 'enumerate_cases', None)
+        has_drawn = getattr(mod, 'strategy', None) is not None and params.get('examples', 0) > 0
+        enum_end = time.time() + wall * (0.65 if has_drawn and tier == 'thorough' else 1.0)  # the enumerated grid may not starve the drawn cases of the shared wall budget
 
         if enum is not None:
             for case in enum(tier, shard, nshards, seed):
                 run_case(mod, case, ctx, case_timeout)
 
-                if ctx.out_of_time():
+                if ctx.out_of_time() or time.time() > enum_end:
                     ctx.count('enumeration_cut_by_wall_budget')
 
                     break
